@@ -62,6 +62,24 @@ def snapshot_check(walk, routes, fp=False, transparent=False):
         v.coverage.setdefault("snapshot", {})["remaining_time_monitor_scenarios"] = nmon
         if walk:
             n += snap_suite.judge_sim_path_covered(v, scen, impl, model, "snapshot", D1)
+            if bad:
+                # the correspondence broke: search for a failing input -- the disagreeing scenarios again under other simulation seeds
+                # (other delays, other orders of arrival), each judged by the walk monitor on the implementation's own output
+                import random as _r
+                from .common import run_pair
+                rng = _r.Random(seed * 31 + 7)
+                scen2 = []
+                for nm, lines, _d in bad[:4]:
+                    for k in range(40):
+                        s = rng.randrange(sim_suite.DEFAULT["seeds"])
+                        ls = [f"seed {s}" if l.startswith("seed ") else f"draws {sim_suite.draws_for(s)}" if l.startswith("draws ") else l for l in lines]
+                        cut = max((j for j, l in enumerate(ls) if l.startswith("mc run")), default=None)
+                        if cut is None:
+                            continue
+                        # a longer walk after the exploration: a projection after every simulator step
+                        scen2.append((f"{nm}-reseed{k}", ls[:cut + 1] + ["step", "proj"] * 6 + ["obs"]))
+                impl2, model2 = run_pair("sim", [sim_suite.block(nm, l) for nm, l in scen2])
+                n += snap_suite.judge_sim_path_covered(v, scen2, impl2, model2, "snapshot_reseeded", D1)
         if routes:
             n += snap_suite.run_two_routes(v, tier, seed)
             n += snap_suite.run_clock_routes(v, tier, seed)
@@ -208,7 +226,8 @@ PROPS = {
     "C06": {"ready": True, "replay": auto_replay,
             "suites": [sim_suite.time_laws_probe, sim("sim_time", "C06", dict(p_random_delay=0.7, p_skew=0.6, p_clock=0.4, p_crash=0.1),
                            nontrivial=lambda st: st["received"] and st["timers_fired"],
-                           extra=lambda rng, tier: [(f"sk{i}", sim_suite.gen_skew_recover(rng)) for i in range(150 if tier == "quick" else 3000)]),
+                           extra=lambda rng, tier: [(f"sk{i}", sim_suite.gen_skew_recover(rng)) for i in range(150 if tier == "quick" else 3000)] +
+                                                   [(f"nt{i}", sim_suite.gen_near_ties(rng)) for i in range(60 if tier == "quick" else 1200)]),
                        py_suite.sim_twin]},
     "C08": {"ready": True, "replay": sim_replay,
             "suites": [sim("sim_crash", "C08", dict(p_crash=0.9, nodes=(2, 3), procs=(2, 4), ops=(10, 24)),
@@ -244,7 +263,8 @@ PROPS = {
                        lambda v, tier, seed: py_suite.run(v, tier, seed, n_quick=60, n_thorough=800), py_suite.restore_probe]},
     "C10": {"ready": True, "replay": mc_checks.replay, "partial": PARTIAL_D1,
             "suites": [mc("mc_bfs_dfs", dict(depth=(2, 4)), cross=[("dfs", "full"), ("bfs", "full"), ("dfs", "partial"), ("bfs", "partial"), ("dfs", "disabled"), ("bfs", "disabled")],
-                          n_quick=200, extra_gen=lambda rng, tier: mc_checks.gen_payload_twins(rng, tier) + mc_checks.gen_alt_goals(rng, tier))]},
+                          n_quick=200, extra_gen=lambda rng, tier: mc_checks.gen_payload_twins(rng, tier) + mc_checks.gen_alt_goals(rng, tier)),
+                       lambda v, tier, seed: mc_checks.rand_cache_probe(v, tier, seed, name="rand_bfs_dfs")]},
     "C11": {"ready": True, "replay": auto_replay, "partial": PARTIAL_D1,
             "suites": [mc("mc_cache_modes", dict(record=0.2, identical_msgs=0.5, depth=(2, 4)),
                           cross=[("dfs", "full"), ("dfs", "partial"), ("dfs", "disabled"), ("bfs", "full"), ("bfs", "disabled")],
